@@ -23,3 +23,86 @@ Print Assumptions C06_src_expiry.
 Example C06_src_nonvacuous : src_checkable_get_acknowledgement_recognised = true -> src_checkable_get_acknowledgement 100 1 99 = (0, [tt]) /\ src_checkable_get_acknowledgement 100 1 100 = (1, []) /\ src_checkable_get_acknowledgement 100 2 0 = (2, []).
 Proof. intro H; xl_rec H. all: repeat split; vm_compute; reflexivity. Qed.
 
+
+(* ---------------------------------------------------------------------------------------------------------------------
+   Round 2 (notes/XLATE.md section 8): the acknowledgement functions as translated from /repo on this run
+   (coq/Facts/Facts_fn_ack.v).  xa_of_out maps a model output to the effect the C++ performs; xm_get / xm_clear /
+   xm_ack_block are the model's get_ack / clear_ack / ack_on_change on the two attributes they touch (xm_*_ok). *)
+From Icv Require Import Facts.Facts_fn_ack Src.SrcAck.
+
+Theorem C06_src_is_acknowledged : src_checkable_is_acknowledged_recognised = true -> src_checkable_get_acknowledgement_recognised = true ->
+  forall now f, src_checkable_is_acknowledged now (ackt_num (f_ack f)) (f_ack_expiry f) = negb (ackt_eqb (cka_eff_ack now f) AckNone).
+Proof. exact src_checkable_is_acknowledged_eq. Qed.
+Print Assumptions C06_src_is_acknowledged.
+
+Theorem C06_src_clear_acknowledgement : src_checkable_clear_acknowledgement_recognised = true ->
+  forall a e ct lc,
+    src_checkable_clear_acknowledgement (ackt_num a) e ct lc
+    = let '(a', e', o) := xm_clear a e in (ackt_num a', e', if negb (ackt_eqb a AckNone) then ct else lc, map xa_of_out o).
+Proof. exact src_checkable_clear_acknowledgement_eq. Qed.
+Print Assumptions C06_src_clear_acknowledgement.
+
+Theorem C06_src_clear_model : forall f, let '(f', o) := clear_ack f in (f_ack f', f_ack_expiry f', o) = xm_clear (f_ack f) (f_ack_expiry f).
+Proof. exact xm_clear_ok. Qed.
+Print Assumptions C06_src_clear_model.
+
+Theorem C06_src_acknowledge_problem : src_checkable_acknowledge_problem_recognised = true ->
+  forall f a expiry notify ct lc,
+    src_checkable_acknowledge_problem (ackt_num a) notify expiry ct (f_paused f) (ackt_num (f_ack f)) (f_ack_expiry f) lc
+    = (ackt_num (f_ack (set_ack f a expiry)), f_ack_expiry (set_ack f a expiry), ct,
+       map xa_of_out ((if notify && negb (f_paused (set_ack f a expiry)) then [ONotify NAck] else []) ++ [OAckSet a])).
+Proof. exact src_checkable_acknowledge_problem_eq. Qed.
+Print Assumptions C06_src_acknowledge_problem.
+
+(* the "remove acknowledgements" block of ProcessCheckResult with explicit state passing = ack_on_change followed by the read
+   that decides remove_acknowledgement_comments: flag, last_state_change, the two attributes, the events *)
+Theorem C06_src_result_ack_clear : src_pcr_ack_clear_recognised = true -> src_checkable_clear_acknowledgement_recognised = true ->
+  src_checkable_get_acknowledgement_recognised = true ->
+  forall k now sc ns cr_end lsc f0,
+    let '(f1, o1) := ack_on_change k now sc ns f0 in
+    let '(a3, f2, o2) := get_ack now f1 in
+    src_pcr_ack_clear now (xk_is_host k) sc (sstate_num ns) cr_end lsc (ackt_num (f_ack f0)) (f_ack_expiry f0)
+    = (ackt_eqb a3 AckNone, if sc then cr_end else lsc, ackt_num (f_ack f2), f_ack_expiry f2, map xa_of_out (o1 ++ o2)).
+Proof. exact src_pcr_ack_clear_model. Qed.
+Print Assumptions C06_src_result_ack_clear.
+
+(* the obligation of the state-passing translation: a repeated GetAcknowledgement() returns the same value and changes nothing *)
+Theorem C06_src_get_ack_idempotent : src_checkable_clear_acknowledgement_recognised = true -> src_checkable_get_acknowledgement_recognised = true ->
+  forall now a e evs,
+    let '(v, r1, e1, ev1) := xa_get_ack now (ackt_num a) e evs in xa_get_ack now r1 e1 ev1 = (v, r1, e1, ev1).
+Proof. exact xa_get_ack_idem. Qed.
+Print Assumptions C06_src_get_ack_idempotent.
+
+(* the API action refuses (HTTP 409) exactly when the model's do_ack ViaApi refuses; otherwise it passes the expiry on *)
+Theorem C06_src_api_refusal : src_apiactions_acknowledge_problem_refusal_recognised = true ->
+  src_checkable_is_acknowledged_recognised = true -> src_checkable_get_acknowledgement_recognised = true ->
+  forall c now f sticky notify persistent eg expiry ts0,
+    src_apiactions_acknowledge_problem_refusal now eg expiry ts0 (negb (xk_is_host (c_kind (fc_base c))))
+      (cka_api_state (c_kind (fc_base c)) (s_raw (f_st f))) (ackt_num (f_ack f)) (f_ack_expiry f)
+    = (if xa_refused (snd (do_ack c now ViaApi sticky notify persistent eg expiry f)) then 409 else 0,
+       if eg then expiry else 0).
+Proof. exact src_apiactions_acknowledge_problem_refusal_eq. Qed.
+Print Assumptions C06_src_api_refusal.
+
+(* the cluster handler applies AcknowledgeProblem iff the origin checks pass and the object is not acknowledged - which is
+   when the model's cka_cluster_set sets it (C06_src_cluster_model) *)
+Theorem C06_src_cluster_handler : src_clusterevents_acknowledgement_set_handler_recognised = true ->
+  src_checkable_is_acknowledged_recognised = true -> src_checkable_get_acknowledgement_recognised = true ->
+  forall now f ep ho sp ck fz ca,
+    src_clusterevents_acknowledgement_set_handler now ep ho sp ck fz ca (ackt_num (f_ack f)) (f_ack_expiry f)
+    = (0, if ep && ho && ck && (negb fz || ca) && ackt_eqb (cka_eff_ack now f) AckNone then [XaApply] else []).
+Proof. exact src_clusterevents_acknowledgement_set_handler_eq. Qed.
+Print Assumptions C06_src_cluster_handler.
+
+Theorem C06_src_cluster_model : forall now sticky notify expiry f,
+  existsb cka_is_set (snd (cka_cluster_set now sticky notify expiry f)) = ackt_eqb (cka_eff_ack now f) AckNone.
+Proof. exact xa_cluster_set_applies. Qed.
+Print Assumptions C06_src_cluster_model.
+
+Example C06_src_round2_nonvacuous : src_pcr_ack_clear_recognised = true -> src_apiactions_acknowledge_problem_refusal_recognised = true ->
+  (* a state change clears a normal acknowledgement (one event) and asks for the comments to be removed; a sticky one survives a non-OK change *)
+  src_pcr_ack_clear 100 false true 2 90 50 1 0 = (true, 90, 0, 0, [XaCleared]) /\
+  src_pcr_ack_clear 100 false true 2 90 50 2 0 = (false, 90, 2, 0, []) /\
+  src_apiactions_acknowledge_problem_refusal 100 true 100 0 true 2 0 0 = (409, 100) /\
+  src_apiactions_acknowledge_problem_refusal 100 true 101 0 true 2 0 0 = (0, 101).
+Proof. intros H1 H2; xl_rec H1; xl_rec H2. all: repeat split; vm_compute; reflexivity. Qed.
